@@ -549,6 +549,9 @@ def nodal_checks(ctx, R, rng, t, q_rod, u_rod, label):
         ex = {"state": label, "node": i, "xi": xi, "formulation": fname, "B_r_CP": B}
         _close(ctx, "rod.r_OP", "cross-section position at a nodal parameter differs from the nodal value",
                rod.r_OP(t, qe, xi_arg, B), r[i] + A_ref @ B, 1e-7 * (rs + float(np.linalg.norm(B))), "nodal.r_OP", ex)
+        # the same cross-section again, now without offset (a second attachment at this cross-section): still the nodal value
+        _close(ctx, "rod.r_OP", "cross-section position at a nodal parameter differs from the nodal value when it is evaluated again (after an evaluation with a body-fixed offset)",
+               rod.r_OP(t, qe, xi_arg), r[i], 1e-7 * rs, "nodal.r_OP", {**ex, "second_evaluation": True})
         _close(ctx, "rod.A_IB", "cross-section orientation at a nodal parameter differs from the nodal rotation",
                rod.A_IB(t, qe, xi_arg), A_ref, 1e-7, "nodal.A_IB", ex)
         v_ref = v[i] + A_ref @ np.cross(w[i], B)
